@@ -28,7 +28,11 @@ def enumerate_proposals(exprs, only=None, max_per_node=60, time_limit=20, mem=Fa
     smtlib.collect_information(exprs)
     # mutator_objects: objects that live across several inputs, as in a pass of ddSMT (default: fresh ones)
     muts = [(t, c, m) for t, c, m in (mutator_objects or all_mutators()) if only is None or c in only]
+    # a list with a comment among its children is offered to no mutator (the strategies skip it until the comment is erased)
+    skip = getattr(smtlib, 'has_comment_operand', None)
     for idx, node in enumerate(nodes.bfs(exprs), 1):
+        if skip is not None and skip(node):
+            continue
         for tname, cls, m in muts:
             if mem:
                 tracemalloc.reset_peak()
